@@ -287,7 +287,7 @@ func param(v val) interface{} {
 
 func openEngine(rt *rapid.T, c *vk.Case) (*sql.Engine, func()) {
 	dir := vk.Dir()
-	st, err := store.Open(dir, store.DefaultOptions().WithMultiIndexing(true).WithSynced(false).WithLogger(quiet))
+	st, err := store.Open(dir, store.DefaultOptions().WithAHTOptions(store.DefaultAHTOptions().WithWriteBufferSize(1<<16)).WithWriteBufferSize(1<<16).WithMultiIndexing(true).WithSynced(false).WithLogger(quiet))
 	if err != nil {
 		removeAll(dir)
 		c.Failf(rt, nil, "open store: %v", err)
@@ -673,7 +673,7 @@ func TestDocumentRoundTrip(t *testing.T) {
 		}
 		dir := vk.Dir()
 		defer removeAll(dir)
-		st, err := store.Open(dir, store.DefaultOptions().WithMultiIndexing(true).WithSynced(false).WithLogger(quiet))
+		st, err := store.Open(dir, store.DefaultOptions().WithAHTOptions(store.DefaultAHTOptions().WithWriteBufferSize(1<<16)).WithWriteBufferSize(1<<16).WithMultiIndexing(true).WithSynced(false).WithLogger(quiet))
 		if err != nil {
 			c.Failf(rt, nil, "open store: %v", err)
 		}
